@@ -55,6 +55,18 @@ def armed(name):
 
 
 DELAY_MISMATCH = []   # retry timers that were not armed with the delay configured at that moment
+TIMER_MISMATCH = []   # a reply-timeout / delay timer armed outside WAIT_CRA / WAIT_DELAY, not armed inside, or armed twice
+EARLY_REPORT = []     # communication reported (handler_communicating) before the S1F14 answering the peer's S1F13 was sent
+
+
+def s1f14_sent(chunks):
+    data = b"".join(chunks)
+    while len(data) >= 14:
+        n = int.from_bytes(data[:4], "big") + 4
+        if data[9] == 0 and data[6] & 0x7F == 1 and data[7] == 14:
+            return True
+        data = data[n:]
+    return False
 
 
 def run_history(host, events):
@@ -63,8 +75,16 @@ def run_history(host, events):
     rig = gemrig.GemRig(host=host, init="ONLINE", auto_establish=False)
     h = rig.handler
     coq_events, outs, states = [], [], []
+    step = {"kind": None, "sent_before": 0, "events": events}
+
+    def on_communicating(_data):
+        if step["kind"] == "s1f13" and not s1f14_sent(rig.conn.sent[step["sent_before"]:]):
+            EARLY_REPORT.append({"host": host, "events": [list(e) for e in events], "what": "handler_communicating fired while the S1F14 for the peer's S1F13 had not been sent yet"})
+
+    h.events.handler_communicating += on_communicating
     try:
         for ev in events:
+            step["kind"], step["sent_before"] = ev[0], len(rig.conn.sent)
             kind = ev[0]
             raised = False
             ntimers = len(FakeTimer.registry)
@@ -133,6 +153,12 @@ def run_history(host, events):
                 if getattr(t.function, "__name__", "") == "_on_wait_comm_delay_timeout" and t.interval != h.settings.establish_communication_timeout:
                     DELAY_MISMATCH.append({"host": host, "events": [list(e) for e in events], "at_event": list(ev), "timer_interval": t.interval,
                                            "configured_delay": h.settings.establish_communication_timeout})
+            name = h.communication_state.current.name
+            want = (1 if name == "WAIT_CRA" else 0, 1 if name == "WAIT_DELAY" else 0)
+            have = (len(armed("_on_wait_cra_timeout")), len(armed("_on_wait_comm_delay_timeout")))
+            if have != want and not TIMER_MISMATCH:
+                TIMER_MISMATCH.append({"host": host, "events": [list(e) for e in events], "after_event": list(ev), "state": name,
+                                       "armed_reply_timeout_and_delay_timers": list(have), "expected": list(want)})
             o = []
             for b in rig.new_frames():
                 sf = (b.header.stream, b.header.function)
@@ -287,6 +313,8 @@ def run(tier, replay=None):
         # the application denies the peer's request: COMMACK 1 goes out, nothing is established; it accepts the next one
         cases.append(("directed", host, [("enable",), ("linkup",), ("s1f13", False), ("other", True, True), ("s1f13", False), ("t3",), ("delay",), ("s1f13", True), ("other", True, True), ("s1f13", False)]))
     del DELAY_MISMATCH[:]
+    del TIMER_MISMATCH[:]
+    del EARLY_REPORT[:]
     wedged, kept, lits = [], [], []
     for c in cases:
         lit = common.guarded(lambda c=c: case_lit(c[1], c[2]), repr(c[1:]), wedged, 20.0)
@@ -298,6 +326,11 @@ def run(tier, replay=None):
     if DELAY_MISMATCH:
         report.violation({"kind": "counterexample", "what": "a retry was scheduled with a delay other than the establish-communications delay configured at that moment", **DELAY_MISMATCH[0],
                           "count": len(DELAY_MISMATCH)}, True, tag="delay")
+    if TIMER_MISMATCH:
+        report.violation({"kind": "counterexample", "what": "the retry machinery is out of step with the state: a reply-timeout timer is armed exactly in WAIT_CRA, a delay timer exactly in WAIT_DELAY, "
+                          "never two (a stale timer fires a retry at the wrong time)", **TIMER_MISMATCH[0]}, True, tag="timers")
+    if EARLY_REPORT:
+        report.violation({"kind": "counterexample", "what": "communication was reported as established before the S1F13/S1F14 exchange was complete", **EARLY_REPORT[0], "count": len(EARLY_REPORT)}, True, tag="early")
     bad, stats = evaluate(lits, "c07")
     spec_bad = [(i, m, sc) for i, m, sc in bad if sc >= 30]
     model_bad = [(i, m, sc) for i, m, sc in bad if m >= 10 and sc < 30]
